@@ -114,8 +114,8 @@ def run(ctx):
         ('vec-zero-progress', 'Vec as MlsDecode::mls_decode::{closure#0}', '==', r'::len\(data\)', r'::len\(data\)', 'InvalidContent'),
         ('hashmap-zero-progress', 'HashMap as MlsDecode::mls_decode::{closure#0}', '==', r'::len\(data\)', r'::len\(data\)', 'InvalidContent'),
         ('btreemap-zero-progress', 'BTreeMap as MlsDecode::mls_decode::{closure#0}', '==', r'::len\(data\)', r'::len\(data\)', 'InvalidContent'),
-        ('hashmap-duplicate-key', 'HashMap as MlsDecode::mls_decode::{closure#0}', 'truth', r'is_some\(::insert\(', None, 'InvalidContent'),
-        ('btreemap-duplicate-key', 'BTreeMap as MlsDecode::mls_decode::{closure#0}', 'truth', r'is_some\(::insert\(', None, 'InvalidContent'),
+        ('hashmap-duplicate-key', 'HashMap as MlsDecode::mls_decode::{closure#0}', 'truth', r'is_some\(\w*::insert\(', None, 'InvalidContent'),
+        ('btreemap-duplicate-key', 'BTreeMap as MlsDecode::mls_decode::{closure#0}', 'truth', r'is_some\(\w*::insert\(', None, 'InvalidContent'),
         ('leaf-index-bound', 'LeafIndex as TryFrom::try_from', '>', r'^value$', r'16777215|MAX_LEAF', 'InvalidTreeIndex'),
     ]
     for name, fq, rel, a, b, err in G:
@@ -158,6 +158,31 @@ def run(ctx):
                 r.bad('enum=%s' % f['qual'], 'derived enum decoder `%s` no longer rejects unknown discriminants' % f['qual'], where=[f['loc']])
         return r
     ctx.check('GUARD', 'derived-enum-unknown-discriminant', enum_discr, floor=10)
+    # length-prefixed helpers of the codec crate: size / encode / decode siblings must all go through VarInt
+    def length_header(P_):
+        r = Res()
+        want = {'mls_encoded_len': r'<varint::VarInt as MlsSize>::mls_encoded_len$|VarInt as MlsSize::mls_encoded_len$',
+                'mls_encode': r'VarInt as MlsEncode::mls_encode$',
+                'mls_decode': r'VarInt as MlsDecode::mls_decode$'}
+        res = fa_for(P_)
+        n = 0
+        for f in sorted(P_.fns.values(), key=lambda f: f['qual']):
+            if f['crate'] != 'mls_rs_codec' or f['kind'] == 'Closure':
+                continue
+            m = re.search(r'^(byte_vec|iter)::(mls_encoded_len|mls_encode|mls_decode)\w*$', f['qual']) or \
+                re.search(r'^(Vec|\[T\]|str|String|HashMap|BTreeMap) as Mls(Size|Encode|Decode)::(mls_encoded_len|mls_encode|mls_decode)$', f['qual'])
+            if not m:
+                continue
+            kind = m.group(m.lastindex) if m.group(1) not in ('byte_vec', 'iter') else m.group(2)
+            seen = reachable_bodies(P_, res, [(f['key'], ())])
+            quals = set(P_.fns[k]['qual'] for k, _ in seen)
+            n += 1
+            r.site('%s -> %s' % (f['qual'], kind))
+            if not any(re.search(want[kind], q) for q in quals):
+                r.bad('fn=%s' % f['qual'], 'length-prefixed codec helper `%s` no longer computes its length header through VarInt (%s): '
+                      'the size / encode / decode siblings can disagree on the header width' % (f['qual'], want[kind]), where=[f['loc']])
+        return r
+    ctx.check('CODEC', 'length-header-through-varint', length_header, floor=15)
     for name, (ents, label) in PANIC_SETS.items():
         ctx.check('PANIC-AUDIT', name, lambda P_, name=name, ents=ents, label=label:
                   panic_audit(P_, ents(P_), 'panic_%s.json' % name, cfg, label)[0], floor=5)
